@@ -47,7 +47,7 @@ def serial_number_wrapper(f):
     @functools.wraps(f)
     @excel_helper(number_params=0)
     def wrapped(date_serial_number):
-        if date_serial_number < 0:
+        if not (0 <= date_serial_number < DATE_MAX_INT):
             return NUM_ERROR
         return f(date_serial_number)
     return wrapped
@@ -505,7 +505,7 @@ def months_inc(start_date, months, eomonth=False):
     months = coerce_to_number(months, convert_all=True)
     if isinstance(start_date, str) or isinstance(months, str):
         return VALUE_ERROR
-    if start_date < 0:
+    if not (0 <= start_date < DATE_MAX_INT):
         return NUM_ERROR
     y, m, d = date_from_int(start_date)
     if eomonth:
